@@ -6,14 +6,26 @@ import json, os, subprocess, sys
 VERIF = os.path.dirname(os.path.dirname(os.path.abspath(__file__)))
 
 # property -> (technique, level text, level note, design ref)
-CLAIMED = {
- "C30": ("constant evaluation (big-integer side conditions) + path-sensitive guard exploration on SSA",
-         "Structural necessary conditions of the integer codecs, decided for all paths of parseUintBuf/readHexInt and for the exact constants in the source on amd64 (thorough: also 386): the overflow guard's arithmetic side conditions hold in exact arithmetic and every accumulator update is guarded. Not the behavioural round-trip property.",
-         "Trusts go/types constant evaluation and go/ssa; the reference arithmetic is written in the checker.", "DESIGN.md 4 C30"),
- "C32": ("exhaustive constant evaluation of the table constants and of the consumers' comparisons against reference predicates",
-         "All 8 tables x all entries compared with predicates transcribed from RFC 3986/9110 (exhaustive), bound guards of short tables, consumer comparisons folded over all 256 bytes, HTML-escape switch, canonicalisation shape. Whole-string equality with net/textproto is not decided.",
-         "Reference predicates in the checker are the trusted oracle.", "DESIGN.md 4 C32"),
+# property -> technique (the level text comes from the checker's own description of the rules: vcheck -list-json)
+TECHNIQUE = {
+ "C02": "path-sensitive exploration of the serve loop's SSA CFG over a finite abstraction (event bits + boolean/nil facts): must-close / must-check obligations per iteration",
+ "C10": "backward condition slicing (interprocedural atoms of the close decision) + path-sensitive exploration of the serve loop",
+ "C11": "field-coverage must-analysis of reset methods (forward dataflow, intersection at joins, callee summaries) + loop-carried staleness exploration of the serve loop",
+ "C14": "typestate automaton over constant ConnState arguments explored on every path of the serve loop's SSA CFG",
+ "C15": "path-sensitive exploration of the serve loop: ordering of idle-marker stores, handler dispatch and stop-flag loads",
+ "C16": "path-sensitive exploration of the serve loop's timeout branch: value identity of the ctx written/released, stale-field reads after the swap",
+ "C17": "path-sensitive exploration (ordering and never-after rules) of the serve loop's hijack branch and of hijackConnHandler",
+ "C22": "result-use analysis of stackless function values (SSA referrers, reach-avoiding search on the queue-full edge), sibling cross-check of the body compressors, control-dependence of coder selection",
+ "C28": "classification of element moves in key/value slice routines by index provenance (len-derived vs forward) + who-may-shorten rule over all stores to Args storage",
+ "C29": "as C28 for header storage + sibling agreement of special-name tables + CopyTo field coverage (must-write and copied-from-same-field analyses)",
+ "C30": "constant evaluation (big-integer side conditions) + path-sensitive guard exploration on SSA",
+ "C32": "exhaustive constant evaluation of the table constants and of the consumers' comparisons against reference predicates",
 }
+NOTES = {
+ "C30": "Trusts go/types constant evaluation and go/ssa; the reference arithmetic is written in the checker.",
+ "C32": "Reference predicates in the checker are the trusted oracle.",
+}
+DEFAULT_NOTE = "Trusts go/types and x/tools go/ssa (v0.50.0); the abstraction over-approximates paths (unknown conditions fork), callee effects on tracked memory are summarised conservatively; exemption tables in the checker carry one reason per entry."
 
 # property -> reason (not claimed)
 NOT_APPLICABLE = {
@@ -30,6 +42,8 @@ PENDING_REASON = "check not built yet in this revision of /verif (planned, see D
 
 def main():
     props = [json.loads(l)["id"] for l in open(os.path.join(VERIF, "properties.jsonl"))]
+    explain = json.loads(subprocess.check_output([os.path.join(VERIF, "bin", "vcheck"), "-list-json"]))
+    CLAIMED = {pid: (TECHNIQUE[pid], explain[pid], NOTES.get(pid, DEFAULT_NOTE), "DESIGN.md 4 " + pid) for pid in TECHNIQUE if pid in explain}
     checks = []
     for pid in props:
         if pid not in CLAIMED:
